@@ -322,7 +322,12 @@ def tt_irenumber(
             start = r.start or 0
             stop = r.stop or shape[i]
             step = r.step or 1
-            newsubs[:, i] = np.arange(start, stop + 1, step)[newsubs[:, i]]
+            if step < 0 or start < 0 or stop < 0:
+                # A downward step or bounds counted from the end: the positions
+                # the slice names in a mode of this size
+                newsubs[:, i] = np.arange(0, shape[i])[r][newsubs[:, i]]
+            else:
+                newsubs[:, i] = np.arange(start, stop + 1, step)[newsubs[:, i]]
         elif isinstance(r, int):
             # This appears to be inserting new keys as rows to our subs here
             newsubs = np.insert(newsubs, obj=i, values=r, axis=1)
